@@ -64,20 +64,56 @@ def _variant(case, rng):
         c["fmt"] = rng.choice(["csr", "csr_explicit_zero", "csc"])
     if k == "wasserstein":
         c["input_method"] = rng.choice(["spmatrix", "lil", "lil"])
-        if rng.random() < 0.5:
-            p["memory_size"] = "1k"
+        if rng.random() < 0.6:
+            # LOT dimension (reference_size x dim) above n_components and few power iterations: the randomised
+            # SVD then really depends on its random stream, so unseeded calls show up in the same-seed comparison
+            p["reference_size"] = rng.choice([2, 3])
+            p["n_svd_iter"] = rng.choice([1, 2])
+            p["n_components"] = 2
+        if rng.random() < 0.6:
+            p["memory_size"] = rng.choice(["1k", "200", "100"])      # 200/100 bytes: 1-4 rows per block, several blocks
             c["fault_at"] = rng.choice([None, 1, 2, 3])
     c["params"] = p
     return c
 
 
+def _blocked_ot_case(input_method, fault_at):
+    """40 distributions over 10 vectors of dimension 6, reference_size 6 (LOT dimension 36, 288 bytes per row),
+    memory_size '4k' -> blocks of 14 rows: the incremental randomised SVD works on matrices larger than its
+    oversampled sketch, so it really consumes its random stream"""
+    import random
+    r = random.Random(4242)
+    V = [[round(r.gauss(0, 1), 3) for _ in range(6)] for _ in range(10)]
+
+    def row():
+        x = [0] * 10
+        for j in r.sample(range(10), r.randint(3, 6)):
+            x[j] = r.randint(1, 6)
+        return x
+    return {"kind": "wasserstein", "input_method": input_method, "fault_at": fault_at,
+            "params": {"n_components": 5, "random_state": 7, "metric": "euclidean", "memory_size": "4k",
+                       "reference_size": 6, "n_svd_iter": 2},
+            "vectors": V, "X": [row() for _ in range(40)], "Xt": [row() for _ in range(3)]}
+
+
 def corpus():
-    return [
+    return [_blocked_ot_case("lil", None), _blocked_ot_case("spmatrix", 2),
         {"kind": "tokencooc", "params": {"window_radii": 1, "mask_string": "[MASK]"}, "X": [["a", "b", "a", "c"]], "Xt": [["a", "zz", "b"]],
          "ctor_dict": {"token_dictionary": {"a": 0, "b": 1}}},
         {"kind": "tree", "params": {"window_radius": 2, "ignored_tokens": ["x"]}, "tree_fmt": "lil",
          "X": [{"parents": [None, 0, 1, 2], "labels": ["a", "x", "b", "c"]}, {"parents": [None, 0, 0], "labels": ["a", "b", "c"]}],
          "Xt": [{"parents": [None, 0, 1], "labels": ["c", "x", "a"]}]},
+        # blocked list-input optimal transport: 1-2 rows per block, randomised SVD that depends on its stream
+        {"kind": "wasserstein", "input_method": "lil", "fault_at": None,
+         "params": {"n_components": 2, "random_state": 7, "metric": "euclidean", "memory_size": "200", "reference_size": 3, "n_svd_iter": 1},
+         "vectors": [[0.3, -1.2, 0.5], [1.1, 0.4, -0.7], [-0.6, 0.9, 1.3], [0.2, 0.1, -1.5], [-1.4, -0.3, 0.8], [0.7, 1.6, 0.2]],
+         "X": [[1, 0, 2, 0, 0, 3], [0, 2, 0, 1, 0, 0], [4, 0, 0, 0, 1, 1], [0, 0, 3, 2, 0, 0], [1, 1, 0, 0, 5, 0], [0, 3, 1, 0, 0, 2], [2, 0, 0, 4, 1, 0], [0, 1, 1, 1, 0, 3]],
+         "Xt": [[1, 1, 0, 0, 0, 2], [0, 0, 2, 2, 1, 0]]},
+        {"kind": "wasserstein", "input_method": "spmatrix", "fault_at": 2,
+         "params": {"n_components": 2, "random_state": 7, "metric": "cosine", "memory_size": "200", "reference_size": 3, "n_svd_iter": 1},
+         "vectors": [[0.3, -1.2, 0.5], [1.1, 0.4, -0.7], [-0.6, 0.9, 1.3], [0.2, 0.1, -1.5], [-1.4, -0.3, 0.8], [0.7, 1.6, 0.2]],
+         "X": [[1, 0, 2, 0, 0, 3], [0, 2, 0, 1, 0, 0], [4, 0, 0, 0, 1, 1], [0, 0, 3, 2, 0, 0], [1, 1, 0, 0, 5, 0], [0, 3, 1, 0, 0, 2], [2, 0, 0, 4, 1, 0], [0, 1, 1, 1, 0, 3]],
+         "Xt": [[1, 1, 0, 0, 0, 2], [0, 0, 2, 2, 1, 0]]},
         {"kind": "infoweight", "params": {}, "fmt": "csc_unsorted", "X": [[1, 0, 2], [0, 3, 1], [2, 2, 0], [1, 1, 1]], "Xt": [[1, 1, 1]]},
         {"kind": "rowdenoise", "params": {"em_threshold": 1e-4}, "fmt": "csr_explicit_zero", "X": [[1, 0, 2], [0, 3, 1], [2, 2, 0], [1, 1, 1]], "Xt": [[1, 1, 1]]},
     ]
